@@ -57,6 +57,11 @@ func (eval Evaluator[T]) Evaluate(input interface{}, p interface{}, targetScale 
 		return nil, fmt.Errorf("%d levels < %d log(d) -> cannot evaluate poly", level, depth)
 	}
 
+	// A constant polynomial needs no power of X (and 1<<(logDegree-1) below would be a negative shift).
+	if polyVec.Value[0].Degree() == 0 {
+		return eval.EvaluatePolynomialVectorFromPowerBasis(powerbasis.Value[1].Level(), polyVec, powerbasis, targetScale)
+	}
+
 	/* #nosec G115 -- Degree cannot be negative */
 	logDegree := bits.Len64(uint64(polyVec.Value[0].Degree()))
 	logSplit := bignum.OptimalSplit(logDegree)
